@@ -131,7 +131,7 @@ func (f *fixedHeader) ReadRemaining(r io.Reader) (ControlPacket, error) {
 		p = &Auth{fixed: f.fixed}
 
 	default:
-		p = &Undefined{}
+		p = &Undefined{fixed: f.fixed}
 	}
 	if f.remainingLen == 0 {
 		return p, nil
